@@ -3,7 +3,35 @@
 REAL_CODECS = ["fileformats/*.go (STL, OFF, PLY, CSV readers and writers)", "model3d/import.go", "model3d/export.go",
                "model2d/import.go", "model2d/export.go", "model3d/triangulate.go", "Go runtime, bufio, encoding/csv"]
 
+SIM_REAL = ["model3d, model2d, numerical, render3d, toolbox3d (all library code, built with -tags verif hooks)",
+            "Go runtime channels, mutexes, WaitGroups, atomic.Value, sync.Map, global math/rand"]
+SIM_SHIM = ["github.com/unixpickle/essentials concurrency.go (same goroutine structure + scheduling points; other files verbatim)"]
+
 PROPS = {
+    "C12": {
+        "race": False,
+        "level": "exploration",
+        "budget_s": {"quick": 60, "thorough": 1500},
+        "max_cases": {"quick": 0, "thorough": 0},
+        "min_fields": ["sched", "work"],
+        "zero_fields": ["sched", "work"],
+        "rule": ("one case = (solid, spacing, algorithm, configuration, schedule) drawn from two choice tapes: ordered CSG of balls and boxes "
+                 "(a third with faces snapped next to lattice planes), algorithm in {MarchingCubes, MarchingCubesSearch, DualContouring "
+                 "(Mesh/MeshInterior), MarchingSquaresSearch, Rasterize}; the reference configuration (1 worker, FIFO schedule, default "
+                 "constants, whole-volume buffer, no filter) is compared with a variant run under the simulator with GOMAXPROCS 1..16, "
+                 "random/sticky schedule, block-size knobs, DC BufferSize from the 4-row minimum up and MaxGos 0..9, filters "
+                 "{always-true, analytically exact, exact+hashed extra trues}, coarse-to-fine with ratio 2..6 (kept only if the coarse mesh "
+                 "is within the documented dilation of every fine vertex), rasteriser tile sizes and cropped canvases; oracle: identical "
+                 "canonical face multiset / pixel array, no deadlock or livelock. distinct_nontrivial = distinct cases with >=1 "
+                 "preemption and a non-empty result; distinct_interleavings = distinct SHA-1 of the (task,site,key) decision trace."),
+        "assumptions": [
+            "Go map iteration order is outside the simulator's control; results are compared as sorted multisets",
+            "DualContouring Repair=true is compared only against a repeat of the same configuration (known finding: map-order dependent)",
+            "goroutines that become runnable through a channel operation run only up to the hook placed directly after that operation",
+        ],
+        "components": {"real": SIM_REAL, "shim": SIM_SHIM,
+                       "stub": ["simsolid (workload solids with scheduling points in Contains, analytic exact filter)"]},
+    },
     "C15": {
         "race": False,
         "level": "exploration",
